@@ -191,7 +191,10 @@ json_strings = st.one_of(
     st.text(max_size=8),
     # JSON's own words and the escape character as whole tokens (a string may end in a backslash, contain NaN / Infinity / null ...)
     st.lists(st.sampled_from(['NaN', 'Infinity', '-Infinity', 'null', 'true', 'false', '\\', '"', '\\"', ' ', 'a', ',', ':', '[', ']', '{', '}', '\\\\', '\\u0041', '\\n',
-                              'undefined', '-', '1e5', '/*', '*/', '//', '/**/', '#', '<!--', '-->', '*', '/']), max_size=6).map(''.join),
+                              'undefined', '-', '1e5', '/*', '*/', '//', '/**/', '#', '<!--', '-->', '*', '/',
+                              '</SCRIPT>', '</script>', '<script>', '</Script', '&lt;', '\u2028']), max_size=6).map(''.join),
+    # texts that LOOK like another JSON-borne type (a parser must hand them back as the strings they are)
+    st.sampled_from(['2024-03-01T12:30:00+00:00', '1999-12-31T23:59:59.999-05:00', '2024-03-01', '2024-03-01T12:30:00Z', '12:30', '1e5', '0x10', 'Infinity', '-0']),
     # very many brackets inside one string (nesting counted on the raw text would see a deep document)
     st.sampled_from(['[' * 2500, '{' * 2100 + '[' * 300, '[{' * 1300, ']' * 2500 + '[' * 2500, '"[' * 1100]),
     st.builds(lambda n, t: repr(n) + t, gv.finite_doubles, st.sampled_from(['', ',', ']', '}', '.0', '.0,', '.00]'])),
